@@ -71,6 +71,17 @@ fn run_query(db: &FixtureDatabase, root: &Path, q: &Value) -> Value {
         }
         "file_cache_text" => db.file_cache.get(&file).map(|t| json!(t.value().as_str())).unwrap_or(Value::Null),
         "completion_context" => json!(format!("{:?}", db.get_completion_context(&file, q["line"].as_u64().unwrap() as u32, q["char"].as_u64().unwrap() as u32))),
+        "duplicate_definitions" => {
+            let mut seen = std::collections::HashSet::new();
+            let mut dups = 0u64;
+            let mut total = 0u64;
+            for e in db.definitions.iter() { for d in e.value().iter() { total += 1; if !seen.insert((d.name.clone(), d.file_path.clone(), d.line)) { dups += 1; } } }
+            json!({"total": total, "duplicates": dups})
+        }
+        "param_insertion" => match db.get_function_param_insertion_info(&file, q["function_line"].as_u64().unwrap() as usize) {
+            Some(i) => json!({"line": i.line, "char_pos": i.char_pos, "needs_comma": i.needs_comma}),
+            None => Value::Null,
+        },
         _ => json!("unknown-query"),
     }));
     match r { Ok(v) => v, Err(_) => json!("PANIC") }
@@ -94,7 +105,20 @@ fn main() {
             for (name, content) in files {
                 let p = root.join(name);
                 std::fs::create_dir_all(p.parent().unwrap()).unwrap();
-                std::fs::write(&p, content.as_str().unwrap()).unwrap();
+                // ${ROOT} in a file's text stands for the absolute scenario root (editable-install .pth / direct_url.json)
+                std::fs::write(&p, content.as_str().unwrap().replace("${ROOT}", root.to_str().unwrap())).unwrap();
+            }
+        }
+        // files_gen: [{"pattern": "t/test_{i}.py", "count": N, "text": "... {i} ..."}] -> N generated files ({i} = 0000..)
+        if let Some(gens) = sc.get("files_gen").and_then(|g| g.as_array()) {
+            for g in gens {
+                let n = g["count"].as_u64().unwrap_or(0);
+                for i in 0..n {
+                    let is = format!("{:04}", i);
+                    let p = root.join(g["pattern"].as_str().unwrap().replace("{i}", &is));
+                    std::fs::create_dir_all(p.parent().unwrap()).unwrap();
+                    std::fs::write(&p, g["text"].as_str().unwrap().replace("{i}", &is)).unwrap();
+                }
             }
         }
         let db = FixtureDatabase::new();
